@@ -37,6 +37,10 @@ impl<S: Storage> TableScanExecutor<S> {
         }
 
         let txn = table.read().await?;
+        // DROP TABLE removes the table from the storage before it commits the removal of the
+        // row-sets. If the table is gone by now, the snapshot just pinned may already be the
+        // empty one: report the drop instead of returning an empty result.
+        self.storage.get_table(self.table_id)?;
 
         // The optimizer relies on a scan of the disk storage being ordered by the primary key
         // (it removes sorts and chooses merge joins and sort aggregations on it, and may prune
